@@ -1,0 +1,7 @@
+//go:build !verif
+
+package control
+
+func verifYield(string, any) {}
+
+func verifObserve(string, func() any) {}
